@@ -54,6 +54,8 @@ def conn_view(r):
 def writer_expected(op, a):
     """The records an independent consumer must decode from what the writer produced."""
     ver, x = a[0], a[1]
+    if op == "wv":              # first field = negotiated Produce version: format 2 iff >= 3
+        ver = "2" if hx(a[0]) >= 3 else "1"
     recs = parse_recs(a[-1])
     if op == "wp":
         codec = hx(x) & 7
@@ -71,7 +73,7 @@ def writer_predicate(c):
     a = c["args"].split(" ")
     g = c["go"]
     if g.startswith("ERR norecord"):
-        return None if (a[0] == "2" and a[-1] == ".") else (None, "writer refused a non-empty record list")
+        return None if (a[0] == "2" and a[-1] == "." and c["op"] != "wv") else (None, "writer refused a non-empty record list")
     if not g.startswith("OK "):
         return (None, "writer failed: " + g[:80])
     d = g.split(" D ", 1)[1] if " D " in g else "REJECT:nodecode"
@@ -172,7 +174,7 @@ def run_cases(ctx, n, big):
     gobin = L.go_build("c05")
     model = L.ocaml_build("c05")
     rc, out, err, dt = L.sh([gobin, "-seed", str(ctx.seed), "-n", str(n), "-big", str(big),
-                             "-pg", str(ctx.scale(40, 150)), "-bigrd", str(ctx.scale(1, 2)), "-pgr", str(ctx.scale(30, 150)), "-cc", str(ctx.scale(4, 12)), "-ww", str(ctx.scale(1, 2)), "-fs", str(ctx.scale(1, 2)), "-vi", str(ctx.scale(1, 2))], timeout=3000)
+                             "-pg", str(ctx.scale(40, 150)), "-bigrd", str(ctx.scale(1, 2)), "-pgr", str(ctx.scale(30, 150)), "-cc", str(ctx.scale(4, 12)), "-ww", str(ctx.scale(1, 2)), "-fs", str(ctx.scale(1, 2)), "-vi", str(ctx.scale(1, 2)), "-av", str(ctx.scale(1, 2))], timeout=3000)
     if rc != 0:
         raise L.Fail("correspondence", "harness cmd/c05 crashed", (out[-1500:] + err[-2500:]))
     cases = L.parse_cases(out)
@@ -183,7 +185,7 @@ def run_cases(ctx, n, big):
 
 
 def correspondence(ctx):
-    n, big = ctx.scale(1500, 8000), ctx.scale(2, 12)
+    n, big = ctx.scale(1500, 8000), ctx.scale(1, 12)
     cases, res = run_cases(ctx, n, big)
     bad = L.diff_cases(cases, res)
     failures, seen = [], set()
@@ -220,6 +222,16 @@ def correspondence(ctx):
             what = "writer model and code differ byte-wise but the produced set decodes to the right records"
         add("correspondence", None, c["op"] + ": " + what, c, m)
     ev, dn, hist = L.coverage_counts(cases, trivial_feats=("",))
+    # Conn path on broker-truncated batches (checks/c11.py truncated_record_cases; defect F35)
+    try:
+        import importlib
+        tc = importlib.import_module("checks.c11").truncated_record_cases(ctx)
+        failures += tc.get("failures", [])
+        ev += tc.get("evaluations", 0)
+        dn += tc.get("distinct_nontrivial", 0)
+        hist.update(tc.get("hist", {}))
+    except (ModuleNotFoundError, AttributeError):
+        pass
     return dict(evaluations=ev, distinct_nontrivial=dn, hist=hist,
                 rule="cases from one PRNG (VERIF_SEED): writers wp (protocol.RecordSet.WriteTo v1/v2), wl (legacy writeBuffer via hook), "
                      "wc (Conn.WriteCompressedMessages over an in-memory pipe, produce v2/v7) x codecs none/gzip/snappy/lz4/zstd on record lists "
@@ -227,6 +239,9 @@ def correspondence(ctx):
                      "decreasing / > 2^31 ms apart times), compared byte-exact with the extracted model and decoded by the harness' independent codec; "
                      "concurrent producers: rounds of 2..4 Conns (WriteCompressedMessages, produce v2/v7, every codec, incompressible values below/above 4 KiB) whose scripted peers pause after 8/100/4096/4097 bytes of the produce request "
                      "and then read in small pieces (nested: each producer parked mid-flush while the next ones run; free: all at once), and 3..10 goroutines encoding RecordSet.WriteTo v1/v2 at the same time, under GOMAXPROCS 1, 2, 8, emitted as wc/wp cases; "
+                     "negotiated API versions: a wire-level fake broker behind kafka.Transport advertises Produce max = v / Fetch max = v; wv: Client.Produce and kafka.Writer at EVERY Produce version v0..v8 (records with headers for v>=3, header-less below), the request's record set "
+                     "through the reference decoder and byte-exact with proto_produce(v) (format 2 iff v >= 3); rd/clientfetch: Client.Fetch at EVERY Fetch version v0..v11, the response laid out by hand from the protocol guide "
+                     "(throttle from v1, error_code/session_id from v7, last_stable_offset and aborted_transactions from v4, log_start_offset from v5, preferred_read_replica from v11); "
                      "varint boundaries (wp, ww, wl, wc, format 2): record counts 63/64/65, 127/128/129, 8191/8192/8193, timestamp deltas at +-(2^(7k-1)-1, 0, +1) for k=1..5, key/value/header-key/header-value lengths 63/64/65 and 8191/8192/8193, header counts 63/64/65, "
                      "each through the strict reference decoder (every record occupies exactly its announced length) and byte-exact with the model; "
                      "ww: the kafka.Writer path (one Writer batch per case through a RoundTripper that encodes the typed request with protocol.WriteRequest, produce v2..v8): every ordered pair of nil/empty/non-empty key and value patterns and longer random mixtures, "
@@ -244,6 +259,66 @@ def correspondence(ctx):
                 failures=failures,
                 notes=["Conn path (messageSetReader) verifies no checksum and hands control-batch records to the consumer; the property asks both only of Client.Fetch, so these are not counted as violations",
                        "legacy v2 writer stores maxTimestamp = timestamp of the LAST record, not the maximum (observable with decreasing times); not part of the property text"])
+
+
+def _model_cached():
+    """The extracted model binary, rebuilt only when one of its sources is newer (the
+    extraction and OCaml compilation take longer than the frame sweep itself)."""
+    exe = os.path.join(L.BIN, "c05_model")
+    srcs = [os.path.join(L.COQ, "Extract", "C05.v"), os.path.join(L.OCAML, "c05_driver.ml"), os.path.join(L.OCAML, "kvio.ml.in"),
+            os.path.join(L.COQ, "Model", "Records.v"), os.path.join(L.COQ, "Model", "Pages.v"), os.path.join(L.COQ, "Spec", "RecordFormat.v")]
+    srcs += [os.path.join(L.COQ, "Lib", f) for f in ("Bits.v", "Bytes.v", "Varint.v", "Crc.v")]
+    try:
+        t = os.path.getmtime(exe)
+        if all(os.path.getmtime(f) <= t for f in srcs):
+            return exe
+    except OSError:
+        pass
+    return L.ocaml_build("c05")
+
+
+def frame_sweep_cases(ctx):
+    """The frame sweep alone, for checks/c04.py: Produce requests / Fetch responses written by
+    protocol.WriteRequest / WriteResponse whose second record batch header lands on every
+    alignment around a 64 KiB page boundary (back-patched set size, batch length, CRC,
+    lastOffsetDelta, timestamps, count straddling / ending on / starting on the boundary).
+    Judged exactly as in C05's correspondence: frame_predicate / writer_predicate on the
+    implementation's own output, and the byte comparison with the extracted writer model.
+    Returns dict(evaluations, distinct_nontrivial, hist, failures, samples)."""
+    prefix = "C04 frame back-patching across a page boundary: "
+    gobin = L.go_build("c05")
+    model = _model_cached()
+    level = str(ctx.scale(1, 2))
+    rc, out, err, dt = L.sh([gobin, "-seed", str(ctx.seed), "-n", "0", "-big", "0", "-pg", "0", "-bigrd", "0", "-pgr", "0",
+                             "-cc", "0", "-ww", "0", "-vi", "0", "-av", "0", "-fs", level], timeout=600)
+    if rc != 0:
+        raise L.Fail("correspondence", "harness cmd/c05 crashed (frame sweep)", (out[-1500:] + err[-2500:]))
+    cases = [c for c in L.parse_cases(out) if "framesweep" in c["feats"].split(",")]
+    for c in cases:
+        c["line"] = c["id"] + " " + c["op"] + " " + c["args"]
+    res = run_model_bigstack(model, "\n".join(c["line"] for c in cases) + "\n", timeout=600)
+    failures, seen = [], set()
+
+    def add(layer, what, c, m):
+        if (layer, what) in seen:
+            return
+        seen.add((layer, what))
+        inp = dict(case=c["line"][:4000000], go=c["go"][:4000000], model=m, feats=c["feats"], frame_sweep=level) if layer == "property" else None
+        failures.append(dict(layer=layer, key=None, what=prefix + what, input=inp,
+                             detail=json.dumps(dict(case=c["line"][:1500], go=c["go"][:700], model=str(m)[:700], feats=c["feats"]))))
+
+    for c in cases:
+        v = predicate(c)
+        if v is not None:
+            add("property", v[1], c, res.get(c["id"]))
+    for c in L.diff_cases(cases, res):
+        if predicate(c) is None:
+            add("correspondence", "the frame's record set differs byte-wise from the writer model although it decodes to the right records", c, c.get("model"))
+    if not cases:
+        failures.append(dict(layer="correspondence", key=None, what=prefix + "the harness produced no frame-sweep case", input=None, detail=out[-500:]))
+    ev, dn, hist = L.coverage_counts(cases, trivial_feats=("",))
+    return dict(evaluations=ev, distinct_nontrivial=dn, hist=hist, failures=failures,
+                samples=[c["line"][:200] + " | " + c["go"][:100] for c in cases[:2] + cases[-2:]])
 
 
 def search(ctx, violations):
@@ -268,7 +343,13 @@ def replay(ctx, payload):
         return 1
     head = inp["case"].split(" ", 1)[1]
     print("replay case:", inp["case"][:400], "...")
-    cases, res = run_cases(ctx, inp.get("n", 1500), inp.get("big", 2))
+    if inp.get("frame_sweep"):
+        fs = frame_sweep_cases(ctx)
+        print("frame sweep now:", fs["evaluations"], "cases,", len(fs["failures"]), "failures")
+        for f in fs["failures"][:5]:
+            print("  ", f["layer"], f["what"])
+        return 1 if fs["failures"] else 0
+    cases, res = run_cases(ctx, inp.get("n", 1500), inp.get("big", 1))
     for c in cases:
         if c["line"].split(" ", 1)[1] == head:
             print("go now   :", c["go"][:600])
